@@ -118,9 +118,9 @@ def compress(rec, K):
     sr = spikeglx.Reader(rec["bin"], sort=False)
     cb = sr.compress_file(keep_original=True, chunk_duration=K / sr.fs, check_after_compress=False, n_threads=1, quiet=True)
     sr.close()
-    sc = spikeglx.Reader(cb, sort=False)
-    bounds = list(sc._raw.chunk_bounds)
-    sc.close()
+    # chunk bounds straight from the header file mtscomp wrote (no private attribute of the Reader involved)
+    import json as _json
+    bounds = list(_json.loads(Path(cb).with_suffix(".ch").read_text())["chunk_bounds"])
     if bounds != list(range(0, rec["ns"], K)) + [rec["ns"]]:
         raise tlc.TLCError(f"mtscomp chunk bounds {bounds} are not multiples of {K}")
     return cb
